@@ -31,6 +31,24 @@ def WatchEvent.toString : WatchEvent → String
 /-- `WithEventTypes(nil)`: the table regenerated from monitor_config.go. -/
 def defaultTypes : List WatchEvent := ShellOp.Facts.c08DefaultEventTypes.filterMap WatchEvent.ofString?
 
+/-- `MonitorConfig.WithEventTypes` (monitor_config.go): nil = the default table, any list (also
+the empty one) is copied as it is. -/
+def withEventTypes : Option (List WatchEvent) → List WatchEvent
+  | none => defaultTypes
+  | some l => [] ++ l
+
+/-- The event-type part of `HookConfigV1.ConvertAndCheck` (config_v1.go): the two keys of a
+kubernetes binding as the loader decoded them (`none` = key absent = nil slice; `some []` = the key
+is given with an empty list). "executeHookOnEvent is a priority": a non-nil `ExecuteHookOnEvents`
+wins — also an empty one —, then the deprecated alias `watchEvent`, then `WithEventTypes(nil)`. -/
+def configuredTypes (exec watch : Option (List WatchEvent)) : List WatchEvent :=
+  match exec with
+  | some l => withEventTypes (some l)
+  | none =>
+    match watch with
+    | some l => withEventTypes (some l)
+    | none => withEventTypes none
+
 /-- The part of `MonitorConfig` the decision depends on. -/
 structure Cfg where
   types : List WatchEvent := defaultTypes   -- EventTypes (executeHookOnEvent)
@@ -77,6 +95,11 @@ def applyFilter {C : Type} (cfg : Cfg) (cks : J → C) (obj : J) : Option (Entry
     match f.eval obj with
     | none => none
     | some v => some { cks := cks v, fr := some v, obj := some obj }
+
+/-- The checksum the code computes (`utils_checksum.CalculateChecksum(string(bytes))`): a hash `h`
+(md5, a parameter) of the JSON *text* of the projection — the text of a string value carries its
+quotes. -/
+def textCks {C : Type} (h : String → C) (j : J) : C := h j.print
 
 def removeFull {C : Type} (cfg : Cfg) (e : Entry C) : Entry C :=
   if cfg.keep then e else { e with obj := none }
@@ -162,6 +185,16 @@ def step (cfg : Cfg) (known : Known) (ev : WatchEvent) (id : Nat) (obj : J) : Kn
     match ev with
     | .deleted => (adel id known, decide (WatchEvent.deleted ∈ cfg.types))
     | ev => (aset id p known, decide (ev ∈ cfg.types) && decide (aget id known ≠ some p))
+
+/-- "its watch-event type is listed in executeHookOnEvent", read off the binding as the hook wrote
+it: the list under `executeHookOnEvent` when the key is there (an empty list lists nothing); the
+deprecated alias `watchEvent` speaks only when `executeHookOnEvent` is absent; a binding with neither
+key listens to everything. -/
+def listed (exec watch : Option (List WatchEvent)) (ev : WatchEvent) : Bool :=
+  match exec, watch with
+  | some l, _ => decide (ev ∈ l)
+  | none, some l => decide (ev ∈ l)
+  | none, none => true
 
 def run (cfg : Cfg) : Known → List Change → Known × List Bool
   | known, [] => (known, [])
